@@ -161,6 +161,19 @@ pub fn gen_c04(seed: u64, thorough: bool) -> Plan {
             f.down = down;
         }
     }
+    if mode != "ws-merge" && g.chance(30) {
+        // the connection goes idle for 31-60 simulated seconds in the middle of the exchange: the pieces that follow the
+        // silence are cut like all the others
+        let idle = g.range(31_000, 60_000);
+        let f = &mut plan.flows[0];
+        for ops in [&mut f.up, &mut f.down] {
+            if let Some(p) = ops.iter_mut().filter(|o| matches!(o, Op::Pause(_))).nth(1).or(None) {
+                *p = Op::Pause(idle);
+            } else if let Some(p) = ops.iter_mut().find(|o| matches!(o, Op::Pause(_))) {
+                *p = Op::Pause(idle);
+            }
+        }
+    }
     plan.extra["mode"] = mode.into();
     plan.extra["multi_samples"] = (if thorough { 400 } else { 40 }).into();
     plan.extra["pair_samples"] = (if thorough { 1500 } else { 0 }).into();
@@ -592,8 +605,12 @@ pub fn execute_c05(plan: &Plan) -> Outcome {
                 variants.push(c);
             }
         }
-        for cuts in variants {
+        for (i, cuts) in variants.into_iter().enumerate() {
             cases.push((DirScript { splice_first_conn: true, cuts: cuts.clone(), gap_ms: 100, ..Default::default() }, format!("the stream of an earlier connection spliced into a later one, cut at {cuts:?}"), 0));
+            if dir == "s2c" && i < 3 {
+                // ... and presented before the later connection's application has sent its first byte
+                cases.push((DirScript { splice_first_conn: true, splice_at_once: true, cuts: cuts.clone(), gap_ms: 100, ..Default::default() }, format!("the stream of an earlier connection presented to a later one whose application is still silent, cut at {cuts:?}"), 0));
+            }
         }
     }
     let mut first_failing: BTreeMap<String, DirScript> = BTreeMap::new();
@@ -604,6 +621,10 @@ pub fn execute_c05(plan: &Plan) -> Outcome {
             let mut two = plan.clone();
             let mut f1 = two.flows[0].clone();
             f1.start_ms = two.flows[0].start_ms + 4_000;
+            if script.splice_at_once {
+                // the application opens its tunnel and stays silent for three seconds
+                f1.up.insert(0, Op::Pause(3_000));
+            }
             // (a target of its own: another port of another host, addressed by its IPv4 address)
             f1.target_name = None;
             f1.target_ip[3] ^= 1;
